@@ -635,7 +635,8 @@ class Recorder:
 
 
 def gen_endpoint(rng):
-  spec = G.gen_request(rng, "hyperopt")
+  # one request in eight has constraint metrics only (a search experiment): the optimised-metric loop is skipped
+  spec = G.gen_request(rng, "hyperopt", layout="search") if rng.random() < 0.125 else G.gen_request(rng, "hyperopt")
   m = len(spec["objectives"])
   n = len(spec["points"])
   tw = rng.random()
